@@ -43,6 +43,15 @@ P = {
  'C18': dict(tech='symbolic-execution translator (real Vector/Point methods on polynomial indeterminates -> Lean terms) + ring proofs + type-matrix correspondence',
              text='PROOF (full for the component formulas, all inputs): the terms computed by the CURRENT Vector/Point methods are regenerated on every run and proved equal to the textbook formulas by ring, with the three identities as corollaries and the promotion table decided. Numeric-type preservation and length/normalized/angle consistency are runtime facts decided by the correspondence over int/Fraction/Decimal/float/user type.',
              ref='DESIGN.md §5 C18'),
+ 'C07': dict(tech='Lean 4 theorems (move = fresh object, histories by induction, polygon validity/membership/measures under move) + history correspondence against fresh objects',
+             text='PROOF (partial): for Point, Line, Plane, Segment, HalfLine the moved receiver IS the freshly constructed object (cached carrier line rebuilt), denotes the translated set, returned = receiver, move back restores it, and after ANY list of moves it equals one move by the sum (induction). ConvexPolygon: vertices translated in order, recomputed plane keeps validity, membership/edge lengths/area invariant, histories; returned==receiver only up to re-sorting (K6-like). ConvexPolyhedron: structure of a successful move. The rest is decided per run: histories of 1-6 moves with deepcopy interleaved, receiver and returned object compared with a fresh object over membership, intersection, distance, angle, measures, ==, hash.',
+             ref='DESIGN.md §5 C07'),
+ 'C08': dict(tech='Lean 4 iff-theorems (== ⇔ same set ⇔ same hash key) for the five flat types + extracted isinstance guards + correspondence over alternative representations',
+             text='PROOF (partial): for Line, Plane, Segment, HalfLine (and Point/Vector) == holds iff the objects denote the same set iff the exact hash keys of the CURRENT __hash__ agree (so a==b ⇒ hash equal, and different sets ⇒ unequal); reflexive, symmetric; isinstance guards of __eq__ extracted and decided. ConvexPolygon/ConvexPolyhedron: == is hash equality in the code; "same set ⇔ equal" is decided per run over shuffled/duplicated vertex and face orders and near-miss shapes.',
+             ref='DESIGN.md §5 C08'),
+ 'C12': dict(tech='Lean 4 corollaries of C01/C02 (associativity for 125 flat triples, self, subset, result-in-both, mixed chain) + correspondence over all 343 type triples',
+             text='PROOF (partial): for flats associativity (both nestings denote exactly a∩b∩c, None absorbing), intersection(a,a)=a, a⊆b ⇒ intersection=a and result⊆both are theorems about the table-driven dispatcher; result⊆both and the chain (a∩b)∩P also for Valid polygons. Self/subset/associativity with polygon or polyhedron operands rest on unproved kernels and are decided per run on all 343 type triples against the exact triple intersection (vertex enumeration).',
+             ref='DESIGN.md §5 C12'),
 }
 
 
